@@ -1,3 +1,1092 @@
 package main
 
-func mainBind(seed uint64, rounds int, out, replay string) {}
+import (
+	"bytes"
+	"context"
+	"encoding/binary"
+	"encoding/json"
+	"errors"
+	"fmt"
+	"os"
+	"path/filepath"
+	"strings"
+	"time"
+
+	abci "github.com/cometbft/cometbft/abci/types"
+	cmted "github.com/cometbft/cometbft/crypto/ed25519"
+	cmtproto "github.com/cometbft/cometbft/proto/tendermint/types"
+	cmtversion "github.com/cometbft/cometbft/proto/tendermint/version"
+	cmtcoretypes "github.com/cometbft/cometbft/rpc/core/types"
+	cmttypes "github.com/cometbft/cometbft/types"
+
+	"github.com/oasisprotocol/oasis-core/go/common/cbor"
+	"github.com/oasisprotocol/oasis-core/go/common/crypto/hash"
+	"github.com/oasisprotocol/oasis-core/go/common/crypto/signature"
+	memsigner "github.com/oasisprotocol/oasis-core/go/common/crypto/signature/signers/memory"
+	consensus "github.com/oasisprotocol/oasis-core/go/consensus/api"
+	"github.com/oasisprotocol/oasis-core/go/consensus/api/transaction"
+	cmtapi "github.com/oasisprotocol/oasis-core/go/consensus/cometbft/api"
+	cmtconsensus "github.com/oasisprotocol/oasis-core/go/consensus/cometbft/consensus"
+	"github.com/oasisprotocol/oasis-core/go/consensus/cometbft/light"
+	"github.com/oasisprotocol/oasis-core/go/consensus/cometbft/stateless"
+	genesis "github.com/oasisprotocol/oasis-core/go/consensus/genesis"
+
+	"verifharness/internal/coqout"
+	"verifharness/internal/prng"
+)
+
+// BCase is one call of one verification function of the stateless backend.
+type BCase struct {
+	Kind   string `json:"kind"`   // block results txs txproof validators params stateroot
+	Alter  string `json:"alter"`  // label of the alteration ("genuine" for none)
+	Header []byte `json:"header"` // protobuf of the light block's (verified) header
+
+	Block          *consensus.Block               `json:"block,omitempty"`
+	Results        *consensus.BlockResults        `json:"results,omitempty"`
+	ResultsHash    []byte                         `json:"results_hash"`
+	Txs            [][]byte                       `json:"txs,omitempty"`
+	Proof          []byte                         `json:"proof,omitempty"`
+	Tx             *transaction.SignedTransaction `json:"tx,omitempty"`
+	Validators     *consensus.Validators          `json:"validators,omitempty"`
+	Params         *consensus.Parameters          `json:"params,omitempty"`
+	StateParams    *genesis.Parameters            `json:"state_params,omitempty"` // nil: the state query fails
+	Honest         *BCase                         `json:"honest,omitempty"`       // the unaltered response (for the oracle)
+}
+
+func lightBlockOf(header []byte) *cmttypes.LightBlock {
+	var ph cmtproto.Header
+	if err := ph.Unmarshal(header); err != nil {
+		panic(err)
+	}
+	h, _ := cmttypes.HeaderFromProto(&ph)
+	return &cmttypes.LightBlock{SignedHeader: &cmttypes.SignedHeader{Header: &h}}
+}
+
+func must[T any](v T, err error) T {
+	if err != nil {
+		panic(err)
+	}
+	return v
+}
+
+// ---------- abstraction of the Go values into the model's records ----------
+type blockBound struct {
+	height           int64
+	hash             []byte
+	sec, nsec        int64
+	ns               []byte
+	version, typ     uint64
+	srHash           []byte
+	metaOK, commitOK bool
+	header           []byte
+	sigs             [][]byte
+	// not bound
+	size                uint64
+	cHeight, cRound     int64
+	cBlockID            []byte
+}
+
+func absBlock(blk *consensus.Block) blockBound {
+	b := blockBound{height: blk.Height, hash: blk.Hash[:], sec: blk.Time.Unix(), nsec: int64(blk.Time.Nanosecond()),
+		ns: blk.StateRoot.Namespace[:], version: blk.StateRoot.Version, typ: uint64(blk.StateRoot.Type), srHash: blk.StateRoot.Hash[:], size: blk.Size}
+	var meta cmtapi.BlockMeta
+	if err := cbor.Unmarshal(blk.Meta, &meta); err != nil {
+		return b
+	}
+	b.metaOK = true
+	b.header = meta.Header
+	var pc cmtproto.Commit
+	if err := pc.Unmarshal(meta.LastCommit); err != nil {
+		return b
+	}
+	c, err := cmttypes.CommitFromProto(&pc)
+	if err != nil {
+		return b
+	}
+	b.commitOK = true
+	for i := range c.Signatures {
+		b.sigs = append(b.sigs, must(c.Signatures[i].ToProto().Marshal()))
+	}
+	pbid := c.BlockID.ToProto()
+	b.cHeight, b.cRound, b.cBlockID = c.Height, int64(c.Round), must(pbid.Marshal())
+	return b
+}
+
+func (b blockBound) coq(t *tb, r *rec) string {
+	meta := "None"
+	if b.metaOK {
+		commit := "None"
+		if b.commitOK {
+			r.root(b.sigs)
+			commit = fmt.Sprintf("(Some (mkCommit %s %s %s %s))", t.list(b.sigs), zs(b.cHeight), zs(b.cRound), t.B(b.cBlockID))
+		}
+		meta = fmt.Sprintf("(Some (mkMeta %s %s))", t.B(b.header), commit)
+	}
+	return fmt.Sprintf("(mkBlock %s %s %s %s %s %s %s %s %s %s)", zs(b.height), t.B(b.hash), zs(b.sec), zs(b.nsec),
+		t.B(b.ns), ns(b.version), ns(b.typ), t.B(b.srHash), ns(b.size), meta)
+}
+
+func eqLists(a, b [][]byte) bool {
+	if len(a) != len(b) {
+		return false
+	}
+	for i := range a {
+		if !bytes.Equal(a[i], b[i]) {
+			return false
+		}
+	}
+	return true
+}
+
+func (b blockBound) sameBound(o blockBound) bool {
+	return b.height == o.height && bytes.Equal(b.hash, o.hash) && b.sec == o.sec && b.nsec == o.nsec && bytes.Equal(b.ns, o.ns) &&
+		b.version == o.version && b.typ == o.typ && bytes.Equal(b.srHash, o.srHash) && b.metaOK == o.metaOK && b.commitOK == o.commitOK &&
+		bytes.Equal(b.header, o.header) && eqLists(b.sigs, o.sigs)
+}
+func (b blockBound) freeDiffs(o blockBound) []string {
+	var d []string
+	if b.size != o.size {
+		d = append(d, "Block.Size")
+	}
+	if b.cHeight != o.cHeight {
+		d = append(d, "Meta.LastCommit.Height")
+	}
+	if b.cRound != o.cRound {
+		d = append(d, "Meta.LastCommit.Round")
+	}
+	if !bytes.Equal(b.cBlockID, o.cBlockID) {
+		d = append(d, "Meta.LastCommit.BlockID")
+	}
+	return d
+}
+
+func lbCoq(t *tb, lb *cmttypes.LightBlock) string {
+	h := hash.LoadFromHexBytes(lb.Header.Hash())
+	hdr := must(lb.Header.ToProto().Marshal())
+	return fmt.Sprintf("(mkLB %s %s %s %s %s %s %s %s %s %s)", zs(lb.Height), t.B(h[:]), zs(lb.Header.Time.Unix()), zs(int64(lb.Header.Time.Nanosecond())),
+		t.B(lb.Header.AppHash), t.B(hdr), t.B(lb.LastCommitHash), t.opt(lb.DataHash), t.B(lb.NextValidatorsHash), t.B(lb.ConsensusHash))
+}
+
+type resultsAbs struct {
+	height int64
+	ok     bool
+	det    [][]byte
+	rest   [][]byte
+	events []byte
+}
+
+func absResults(rs *consensus.BlockResults) resultsAbs {
+	a := resultsAbs{height: rs.Height}
+	meta, err := cmtapi.NewBlockResultsMeta(rs)
+	if err != nil {
+		return a
+	}
+	a.ok = true
+	for _, d := range meta.TxsResults {
+		det := &abci.ResponseDeliverTx{Code: d.Code, Data: d.Data, GasWanted: d.GasWanted, GasUsed: d.GasUsed}
+		a.det = append(a.det, must(det.Marshal()))
+		rest := &abci.ResponseDeliverTx{Log: d.Log, Info: d.Info, Events: d.Events, Codespace: d.Codespace}
+		a.rest = append(a.rest, must(rest.Marshal()))
+	}
+	a.events = cbor.Marshal([]any{meta.BeginBlockEvents, meta.EndBlockEvents})
+	return a
+}
+func (a resultsAbs) coq(t *tb, r *rec) string {
+	meta := "None"
+	if a.ok {
+		r.root(a.det)
+		items := make([]string, len(a.det))
+		for i := range a.det {
+			items[i] = fmt.Sprintf("(mkTxResult %s %s)", t.B(a.det[i]), t.B(a.rest[i]))
+		}
+		meta = fmt.Sprintf("(Some (%s, %s))", coqout.List(items), t.B(a.events))
+	}
+	return fmt.Sprintf("(mkResults %s %s)", zs(a.height), meta)
+}
+
+type valsAbs struct {
+	height int64
+	ok     bool
+	vb     [][]byte
+	rest   [][]byte
+	set    []byte
+}
+
+func absValidators(v *consensus.Validators) valsAbs {
+	a := valsAbs{height: v.Height}
+	vs, err := light.DecodeValidators(v)
+	if err != nil {
+		return a
+	}
+	a.ok = true
+	for _, val := range vs.Validators {
+		a.vb = append(a.vb, val.Bytes())
+		pp := make([]byte, 8)
+		binary.BigEndian.PutUint64(pp, uint64(val.ProposerPriority))
+		a.rest = append(a.rest, pp)
+	}
+	if vs.Proposer != nil {
+		a.set = append([]byte{}, vs.Proposer.Address...)
+	}
+	return a
+}
+func (a valsAbs) coq(t *tb, r *rec) string {
+	set := "None"
+	if a.ok {
+		r.root(a.vb)
+		items := make([]string, len(a.vb))
+		for i := range a.vb {
+			items[i] = fmt.Sprintf("(mkValidator %s %s)", t.B(a.vb[i]), t.B(a.rest[i]))
+		}
+		set = fmt.Sprintf("(Some (%s, %s))", coqout.List(items), t.B(a.set))
+	}
+	return fmt.Sprintf("(mkValidators %s %s)", zs(a.height), set)
+}
+
+type paramsAbs struct {
+	height int64
+	ok     bool
+	hashed []byte
+	valid  bool
+	rest   []byte
+	cbor   []byte
+}
+
+func absParams(p *consensus.Parameters) paramsAbs {
+	a := paramsAbs{height: p.Height, cbor: cbor.Marshal(p.Parameters)}
+	var pb cmtproto.ConsensusParams
+	if err := pb.Unmarshal(p.Meta); err != nil {
+		return a
+	}
+	a.ok = true
+	cp := cmttypes.ConsensusParamsFromProto(pb)
+	a.valid = cp.ValidateBasic() == nil
+	hp := cmtproto.HashedParams{BlockMaxBytes: cp.Block.MaxBytes, BlockMaxGas: cp.Block.MaxGas}
+	a.hashed = must(hp.Marshal())
+	pb2 := cp.ToProto()
+	pb2.Block = nil
+	a.rest = must(pb2.Marshal())
+	return a
+}
+func (a paramsAbs) coq(t *tb, r *rec) string {
+	meta := "None"
+	if a.ok {
+		r.H(a.hashed)
+		meta = fmt.Sprintf("(Some (mkCmtParams %s %s %s))", t.B(a.hashed), coqout.Bool(a.valid), t.B(a.rest))
+	}
+	return fmt.Sprintf("(mkParams %s %s %s)", zs(a.height), meta, t.B(a.cbor))
+}
+
+func absMetaTx(metaTx []byte) string {
+	var sigTx transaction.SignedTransaction
+	if err := cbor.Unmarshal(metaTx, &sigTx); err != nil {
+		return "MtBadSigned"
+	}
+	var tx transaction.Transaction
+	if err := cbor.Unmarshal(sigTx.Blob, &tx); err != nil {
+		return "MtBadTx"
+	}
+	var meta consensus.BlockMetadata
+	body := "None"
+	if err := cbor.Unmarshal(tx.Body, &meta); err == nil {
+		body = "(Some " + hbLit(meta.StateRoot[:]) + ")"
+	}
+	return fmt.Sprintf("(MtTx %s %s)", coqout.Bool(tx.Method == consensus.MethodMeta), body)
+}
+
+// ---------- error text -> model verdict ----------
+func bindVerdict(kind string, err error) string {
+	if err == nil {
+		return "BOk"
+	}
+	s := err.Error()
+	has := func(x string) bool { return strings.Contains(s, x) }
+	switch {
+	case has("malformed block transactions"):
+		return "BEmptyTxs"
+	case has("malformed block metadata transaction: invalid method"):
+		return "BMetaTxMethod"
+	case has("malformed block metadata transaction"):
+		return "BMetaTxMalformed"
+	case has("mismatched block height"):
+		return "BHeight"
+	case has("mismatched block hash"):
+		return "BHash"
+	case has("mismatched block time"):
+		return "BTime"
+	case has("mismatched block state root namespace"):
+		return "BSrNamespace"
+	case has("mismatched block state root version"):
+		return "BSrVersion"
+	case has("mismatched block state root type"):
+		return "BSrType"
+	case has("mismatched block state root hash"):
+		return "BSrHash"
+	case has("malformed block meta last commit"):
+		return "BLastCommitMalformed"
+	case has("malformed block meta"):
+		return "BMetaMalformed"
+	case has("mismatched block meta header"):
+		return "BMetaHeader"
+	case has("mismatched block meta last commit"):
+		return "BLastCommit"
+	case has("malformed block results metadata"):
+		return "BResultsMalformed"
+	case has("mismatched last results hash"):
+		return "BResultsHash"
+	case has("malformed parameters"):
+		return "BParamsMalformed"
+	case has("mismatched consensus parameters hash"):
+		return "BParamsHash"
+	case has("failed to query consensus"), has("failed to fetch consensus parameters"):
+		return "BParamsQuery"
+	case has("mismatched parameters"):
+		return "BParamsMismatch"
+	case has("failed to verify transactions"):
+		return "BTxsHash"
+	case has("failed to verify proof"):
+		return "BTxProof"
+	case has("failed to unmarshal validators"), has("failed to convert validators"):
+		return "BValidatorsMalformed"
+	case has("mismatched next validator set"):
+		return "BValidatorsHash"
+	case has("malformed block transactions"):
+		return "BEmptyTxs"
+	case has("malformed block metadata transaction: invalid method"):
+		return "BMetaTxMethod"
+	case has("malformed block metadata transaction"):
+		return "BMetaTxMalformed"
+	}
+	if kind == "params" {
+		return "BParamsInvalid" // ValidateBasic's own messages
+	}
+	return "BOther"
+}
+
+type fakeQF struct {
+	p *genesis.Parameters
+}
+
+func (f *fakeQF) QueryAt(context.Context, int64) (cmtconsensus.Query, error) { return f, nil }
+func (f *fakeQF) ChainContext(context.Context) (string, error)              { return "verif", nil }
+func (f *fakeQF) ConsensusParameters(context.Context) (*genesis.Parameters, error) {
+	if f.p == nil {
+		return nil, errors.New("state not available")
+	}
+	return f.p, nil
+}
+
+type bresult struct {
+	t          *tb
+	coq        string
+	verdict    string
+	violation  string
+	free       []string // unbound fields that differ in an accepted response
+	panicked   string
+}
+
+// runB executes one case on the real code.
+func runB(c BCase) (res bresult) {
+	defer func() {
+		if p := recover(); p != nil {
+			res.panicked = fmt.Sprint(p)
+		}
+	}()
+	lb := lightBlockOf(c.Header)
+	t, r := newTB(), newRec()
+	var q, out string
+	accept := false
+	bad := func(what string) {
+		res.violation = fmt.Sprintf("%s (%s / %s)", what, c.Kind, c.Alter)
+	}
+	switch c.Kind {
+	case "block":
+		err := stateless.VerifVerifyBlock(c.Block, lb)
+		res.verdict = bindVerdict(c.Kind, err)
+		a := absBlock(c.Block)
+		q = "QBlock " + a.coq(t, r)
+		if err == nil {
+			accept = true
+			if h := absBlock(c.Honest.Block); !a.sameBound(h) {
+				bad("verifyBlock accepted a block whose header-bound fields differ from the honest response")
+			} else {
+				res.free = a.freeDiffs(h)
+			}
+		}
+	case "results":
+		_, err := stateless.VerifVerifyBlockResults(c.Results, c.ResultsHash, lb)
+		res.verdict = bindVerdict(c.Kind, err)
+		a := absResults(c.Results)
+		q = fmt.Sprintf("QResults %s %s", a.coq(t, r), t.opt(c.ResultsHash))
+		if err == nil {
+			accept = true
+			h := absResults(c.Honest.Results)
+			if a.height != h.height || !eqLists(a.det, h.det) || !bytes.Equal(c.ResultsHash, c.Honest.ResultsHash) {
+				bad("verifyBlockResults accepted results whose (code, data, gas) or height differ from the honest response")
+			} else {
+				if !eqLists(a.rest, h.rest) {
+					res.free = append(res.free, "TxsResults.{Log,Info,Events,Codespace}")
+				}
+				if !bytes.Equal(a.events, h.events) {
+					res.free = append(res.free, "Begin/EndBlockEvents")
+				}
+			}
+		}
+	case "txs":
+		err := stateless.VerifVerifyTransactions(c.Txs, lb)
+		res.verdict = bindVerdict(c.Kind, err)
+		r.txRoot(c.Txs)
+		q = "QTxs " + t.list(c.Txs)
+		if err == nil {
+			accept = true
+			if !eqLists(c.Txs, c.Honest.Txs) {
+				bad("verifyTransactions accepted an altered transaction list")
+			}
+		}
+	case "txproof":
+		err := stateless.VerifVerifyTransactionProof(&transaction.Proof{Height: lb.Height, RawProof: c.Proof}, c.Tx, lb)
+		res.verdict = bindVerdict(c.Kind, err)
+		raw := cbor.Marshal(c.Tx)
+		var pj *proofJ
+		var p proofJ
+		if cbor.Unmarshal(c.Proof, &p) == nil {
+			pj = &p
+		}
+		r.verifyTx(pj, raw)
+		q = fmt.Sprintf("QTxProof %s %s", optProof(t, pj), t.B(raw))
+		if err == nil {
+			accept = true
+			if !inList(raw, c.Honest.Txs) {
+				bad("verifyTransactionProof accepted a transaction that is not in the block")
+			}
+		}
+	case "validators":
+		err := stateless.VerifVerifyNextValidators(c.Validators, lb)
+		res.verdict = bindVerdict(c.Kind, err)
+		a := absValidators(c.Validators)
+		q = "QValidators " + a.coq(t, r)
+		if err == nil {
+			accept = true
+			h := absValidators(c.Honest.Validators)
+			if a.height != h.height || !eqLists(a.vb, h.vb) {
+				bad("verifyNextValidators accepted a validator set whose (key, power) list or height differ from the honest response")
+			} else {
+				if !eqLists(a.rest, h.rest) {
+					res.free = append(res.free, "Validator.ProposerPriority")
+				}
+				if !bytes.Equal(a.set, h.set) {
+					res.free = append(res.free, "ValidatorSet.Proposer")
+				}
+			}
+		}
+	case "params":
+		err := stateless.VerifVerifyParameters(context.Background(), &fakeQF{c.StateParams}, c.Params, lb)
+		res.verdict = bindVerdict(c.Kind, err)
+		a := absParams(c.Params)
+		sp := "None"
+		if c.StateParams != nil {
+			sp = "(Some " + t.B(cbor.Marshal(c.StateParams)) + ")"
+		}
+		q = fmt.Sprintf("QParams %s %s", a.coq(t, r), sp)
+		if err == nil {
+			accept = true
+			h := absParams(c.Honest.Params)
+			if a.height != h.height || !bytes.Equal(a.hashed, h.hashed) || !bytes.Equal(a.cbor, h.cbor) {
+				bad("verifyParameters accepted parameters whose hashed part, oasis parameters or height differ from the honest response")
+			} else if !bytes.Equal(a.rest, h.rest) {
+				res.free = append(res.free, "ConsensusParams.{Evidence,Validator,Version}")
+			}
+		}
+	case "stateroot":
+		h, err := stateless.VerifStateRootFromBlockTxs(c.Txs)
+		m := "MtBadSigned"
+		if len(c.Txs) > 0 {
+			m = absMetaTx(c.Txs[len(c.Txs)-1])
+		}
+		q = fmt.Sprintf("QStateRoot %s %s", t.list(c.Txs), m)
+		if err == nil {
+			res.verdict = "SrOk"
+			out = "(SrOk " + t.B(h[:]) + ")"
+		} else {
+			res.verdict = bindVerdict(c.Kind, err)
+		}
+	default:
+		panic("unknown kind " + c.Kind)
+	}
+	if out == "" {
+		out = "(SrErr " + res.verdict + ")"
+	}
+	if c.Alter == "genuine" && !accept && c.Kind != "stateroot" {
+		fmt.Fprintln(os.Stderr, "honest rejected:", c.Kind, res.verdict)
+		bad("harness error: the honest response is rejected: " + res.verdict)
+	}
+	res.t = t
+	res.coq = fmt.Sprintf("((%s, %s, %s), %s)", r.coq(t), lbCoq(t, lb), q, out)
+	return res
+}
+
+// ---------- construction of consistent (block, light block, ...) tuples ----------
+type tuple struct {
+	name        string
+	header      []byte // light block header (proto)
+	nextHeader  []byte
+	block       *consensus.Block
+	txs         [][]byte
+	results     *consensus.BlockResults
+	resultsHash []byte
+	validators  *consensus.Validators
+	params      *consensus.Parameters
+	stateParams *genesis.Parameters
+	sigTxs      []*transaction.SignedTransaction
+}
+
+func mkValSet(r *prng.R, n int) *cmttypes.ValidatorSet {
+	vals := make([]*cmttypes.Validator, n)
+	for i := range vals {
+		pk := cmted.GenPrivKeyFromSecret(r.Bytes(16)).PubKey()
+		vals[i] = cmttypes.NewValidator(pk, int64(1+r.Intn(1000)))
+	}
+	return cmttypes.NewValidatorSet(vals)
+}
+
+func metaTx(r *prng.R, root hash.Hash) *transaction.SignedTransaction {
+	signer := memsigner.NewTestSigner(fmt.Sprintf("verif proposer %d", r.Intn(4)))
+	tx := consensus.NewBlockMetadataTx(&consensus.BlockMetadata{StateRoot: root, EventsRoot: r.Bytes(32)})
+	return must(transaction.Sign(signer, tx))
+}
+
+func plainTx(r *prng.R) *transaction.SignedTransaction {
+	signer := memsigner.NewTestSigner(fmt.Sprintf("verif account %d", r.Intn(4)))
+	tx := transaction.NewTransaction(uint64(r.Intn(100)), nil, transaction.MethodName("staking.Transfer"), r.Bytes(r.Intn(20)))
+	return must(transaction.Sign(signer, tx))
+}
+
+func mkTuple(r *prng.R, idx int) *tuple {
+	heights := []int64{1, 2, 7, 25300000, 1<<31 + 5, 1<<63 - 2}
+	height := heights[idx%len(heights)]
+	ntx := []int{1, 2, 3, 5, 8}[r.Intn(5)]
+	var root hash.Hash
+	copy(root[:], r.Bytes(32))
+	var sigTxs []*transaction.SignedTransaction
+	var txs cmttypes.Txs
+	var raw [][]byte
+	for i := 0; i < ntx-1; i++ {
+		sigTxs = append(sigTxs, plainTx(r))
+	}
+	sigTxs = append(sigTxs, metaTx(r, root))
+	for _, s := range sigTxs {
+		b := cbor.Marshal(s)
+		raw = append(raw, b)
+		txs = append(txs, b)
+	}
+	vals, nextVals := mkValSet(r, 1+r.Intn(4)), mkValSet(r, 1+r.Intn(5))
+	cp := cmttypes.DefaultConsensusParams()
+	cp.Block.MaxBytes = int64(1024 * (2048 + r.Intn(1000)))
+	cp.Block.MaxGas = int64(r.Intn(1000000)) - 1
+	cp.Version.App = uint64(r.Intn(10))
+	ts := time.Unix(1_700_000_000+int64(r.Intn(1000000)), int64(r.Intn(1_000_000_000))).UTC()
+	lastBlockID := cmttypes.BlockID{Hash: r.Bytes(32), PartSetHeader: cmttypes.PartSetHeader{Total: 1, Hash: r.Bytes(32)}}
+	commit := &cmttypes.Commit{Height: height - 1, Round: int32(r.Intn(2)), BlockID: lastBlockID}
+	for i := 0; i < 1+r.Intn(5); i++ {
+		if i > 0 && r.Chance(25) {
+			commit.Signatures = append(commit.Signatures, cmttypes.NewCommitSigAbsent())
+			continue
+		}
+		commit.Signatures = append(commit.Signatures, cmttypes.CommitSig{BlockIDFlag: cmttypes.BlockIDFlagCommit,
+			ValidatorAddress: r.Bytes(20), Timestamp: ts.Add(-time.Duration(r.Intn(1e9))), Signature: r.Bytes(64)})
+	}
+	if height == 1 {
+		commit = &cmttypes.Commit{}
+		lastBlockID = cmttypes.BlockID{}
+	}
+	data := cmttypes.Data{Txs: txs}
+	hdr := cmttypes.Header{
+		Version: cmtversion.Consensus{Block: 11, App: cp.Version.App}, ChainID: "verif-chain", Height: height, Time: ts,
+		LastBlockID: lastBlockID, LastCommitHash: commit.Hash(), DataHash: data.Hash(), ValidatorsHash: vals.Hash(),
+		NextValidatorsHash: nextVals.Hash(), ConsensusHash: cp.Hash(), AppHash: r.Bytes(32), LastResultsHash: r.Bytes(32),
+		EvidenceHash: (&cmttypes.EvidenceData{}).Hash(), ProposerAddress: vals.Validators[0].Address,
+	}
+	blk := &cmttypes.Block{Header: hdr, Data: data, LastCommit: commit}
+	cblk := must(cmtapi.NewBlock(blk))
+
+	var txr []*abci.ResponseDeliverTx
+	for i := 0; i < ntx; i++ {
+		txr = append(txr, &abci.ResponseDeliverTx{Code: uint32(r.Intn(3)), Data: r.Bytes(r.Intn(12)), Log: "log " + fmt.Sprint(r.Intn(9)),
+			GasWanted: int64(r.Intn(5000)), GasUsed: int64(r.Intn(5000)), Codespace: []string{"", "staking"}[r.Intn(2)],
+			Events: []abci.Event{{Type: "staking", Attributes: []abci.EventAttribute{{Key: "k", Value: fmt.Sprint(r.Intn(1000))}}}}})
+	}
+	results := cmtapi.NewBlockResults(&cmtcoretypes.ResultBlockResults{Height: height, TxsResults: txr,
+		BeginBlockEvents: []abci.Event{{Type: "begin"}}, EndBlockEvents: []abci.Event{{Type: "end"}}})
+	resultsHash := cmttypes.NewResults(txr).Hash()
+	next := hdr
+	next.Height = height + 1
+	next.LastResultsHash = resultsHash
+	next.AppHash = root[:]
+
+	sp := &genesis.Parameters{TimeoutCommit: time.Second, MaxTxSize: 32768, MaxBlockSize: uint64(cp.Block.MaxBytes), MaxBlockGas: 1000, MaxEvidenceSize: 51200, MinGasPrice: uint64(r.Intn(5))}
+	pbp := cp.ToProto()
+	params := &consensus.Parameters{Height: height, Parameters: *sp, Meta: must(pbp.Marshal())}
+	return &tuple{name: fmt.Sprintf("constructed-%d", idx), header: must(hdr.ToProto().Marshal()), nextHeader: must(next.ToProto().Marshal()),
+		block: cblk, txs: raw, results: results, resultsHash: resultsHash,
+		validators: must(light.EncodeValidators(nextVals, height+1)), params: params, stateParams: sp, sigTxs: sigTxs}
+}
+
+// recordedTuple loads the mainnet sample kept with the package's tests.
+func recordedTuple() *tuple {
+	repo := os.Getenv("VERIF_REPO")
+	if repo == "" {
+		repo = "/repo"
+	}
+	dir := filepath.Join(repo, "go/consensus/cometbft/stateless/testdata")
+	load := func(name string, v any) bool {
+		b, err := os.ReadFile(filepath.Join(dir, name))
+		if err != nil {
+			return false
+		}
+		return json.Unmarshal(b, v) == nil
+	}
+	var clb, clb2 consensus.LightBlock
+	var blk consensus.Block
+	var rs consensus.BlockResults
+	var txs [][]byte
+	if !load("light_block_25300000.json", &clb) || !load("light_block_25300001.json", &clb2) || !load("block_25300000.json", &blk) ||
+		!load("results_25300000.json", &rs) || !load("txs_25300000.json", &txs) {
+		return nil
+	}
+	lb, lb2 := must(light.DecodeLightBlock(&clb)), must(light.DecodeLightBlock(&clb2))
+	tp := &tuple{name: "recorded-25300000", header: must(lb.Header.ToProto().Marshal()), nextHeader: must(lb2.Header.ToProto().Marshal()),
+		block: &blk, txs: txs, results: &rs, resultsHash: lb2.LastResultsHash,
+		validators: must(light.EncodeValidators(lb2.ValidatorSet, lb.Height+1))}
+	for _, raw := range txs {
+		var s transaction.SignedTransaction
+		if cbor.Unmarshal(raw, &s) == nil {
+			tp.sigTxs = append(tp.sigTxs, &s)
+		}
+	}
+	return tp
+}
+
+// ---------- alterations ----------
+func cloneBlock(b *consensus.Block) *consensus.Block {
+	c := *b
+	c.Meta = append([]byte{}, b.Meta...)
+	return &c
+}
+func withMeta(b *consensus.Block, f func(m *cmtapi.BlockMeta)) *consensus.Block {
+	c := cloneBlock(b)
+	var m cmtapi.BlockMeta
+	if err := cbor.Unmarshal(c.Meta, &m); err != nil {
+		panic(err)
+	}
+	f(&m)
+	c.Meta = cbor.Marshal(m)
+	return c
+}
+func withCommit(b *consensus.Block, f func(c *cmtproto.Commit)) *consensus.Block {
+	return withMeta(b, func(m *cmtapi.BlockMeta) {
+		var pc cmtproto.Commit
+		if err := pc.Unmarshal(m.LastCommit); err != nil {
+			panic(err)
+		}
+		f(&pc)
+		m.LastCommit = must(pc.Marshal())
+	})
+}
+
+func genBCases(r *prng.R, tp *tuple) []BCase {
+	var cs []BCase
+	// --- block ---
+	hb := &BCase{Kind: "block", Alter: "genuine", Header: tp.header, Block: tp.block}
+	blk := func(label string, b *consensus.Block) {
+		cs = append(cs, BCase{Kind: "block", Alter: label, Header: tp.header, Block: b, Honest: hb})
+	}
+	mod := func(label string, f func(b *consensus.Block)) { b := cloneBlock(tp.block); f(b); blk(label, b) }
+	blk("genuine", tp.block)
+	cs = append(cs, BCase{Kind: "block", Alter: "light-block-of-next-height", Header: tp.nextHeader, Block: tp.block, Honest: hb})
+	mod("height+1", func(b *consensus.Block) { b.Height++ })
+	mod("height-1", func(b *consensus.Block) { b.Height-- })
+	mod("height+2^32", func(b *consensus.Block) { b.Height += 1 << 32 })
+	mod("hash-bitflip", func(b *consensus.Block) { b.Hash[r.Intn(32)] ^= 1 << uint(r.Intn(8)) })
+	mod("hash-zero", func(b *consensus.Block) { b.Hash = hash.Hash{} })
+	mod("time+1s", func(b *consensus.Block) { b.Time = b.Time.Add(time.Second) })
+	mod("time-1s", func(b *consensus.Block) { b.Time = b.Time.Add(-time.Second) })
+	mod("time+1ns", func(b *consensus.Block) { b.Time = b.Time.Add(1) })
+	mod("time+999999999ns", func(b *consensus.Block) { b.Time = b.Time.Add(999999999) })
+	mod("time-other-zone-same-instant", func(b *consensus.Block) { b.Time = b.Time.In(time.FixedZone("x", 3600)) })
+	mod("time-untruncated", func(b *consensus.Block) { b.Time = lightBlockOf(tp.header).Header.Time })
+	mod("namespace-bitflip", func(b *consensus.Block) { b.StateRoot.Namespace[r.Intn(32)] ^= 1 << uint(r.Intn(8)) })
+	mod("version+1", func(b *consensus.Block) { b.StateRoot.Version++ })
+	mod("version-1", func(b *consensus.Block) { b.StateRoot.Version-- })
+	mod("version=height", func(b *consensus.Block) { b.StateRoot.Version = uint64(b.Height) })
+	mod("type=0", func(b *consensus.Block) { b.StateRoot.Type = 0 })
+	mod("type=2", func(b *consensus.Block) { b.StateRoot.Type = 2 })
+	mod("stateroot-hash-bitflip", func(b *consensus.Block) { b.StateRoot.Hash[r.Intn(32)] ^= 1 << uint(r.Intn(8)) })
+	mod("size+1", func(b *consensus.Block) { b.Size++ })
+	mod("size=0", func(b *consensus.Block) { b.Size = 0 })
+	mod("meta-garbage", func(b *consensus.Block) { b.Meta = r.Bytes(1 + r.Intn(30)) })
+	mod("meta-truncated", func(b *consensus.Block) { b.Meta = b.Meta[:len(b.Meta)-1-r.Intn(len(b.Meta)/2)] })
+	for k := 0; k < 6; k++ {
+		mod("meta-random-bitflip", func(b *consensus.Block) { b.Meta[r.Intn(len(b.Meta))] ^= 1 << uint(r.Intn(8)) })
+	}
+	blk("meta-header-bitflip", withMeta(tp.block, func(m *cmtapi.BlockMeta) { m.Header = flip(m.Header, r.Intn(4096)) }))
+	blk("meta-header-truncated", withMeta(tp.block, func(m *cmtapi.BlockMeta) { m.Header = m.Header[:len(m.Header)-1] }))
+	blk("meta-header-extended", withMeta(tp.block, func(m *cmtapi.BlockMeta) { m.Header = append(m.Header, 0) }))
+	blk("meta-header-of-next-height", withMeta(tp.block, func(m *cmtapi.BlockMeta) { m.Header = tp.nextHeader }))
+	blk("meta-header-empty", withMeta(tp.block, func(m *cmtapi.BlockMeta) { m.Header = nil }))
+	blk("meta-lastcommit-garbage", withMeta(tp.block, func(m *cmtapi.BlockMeta) { m.LastCommit = r.Bytes(1 + r.Intn(30)) }))
+	blk("meta-lastcommit-empty", withMeta(tp.block, func(m *cmtapi.BlockMeta) { m.LastCommit = nil }))
+	for k := 0; k < 4; k++ {
+		blk("meta-lastcommit-random-bitflip", withMeta(tp.block, func(m *cmtapi.BlockMeta) {
+			if len(m.LastCommit) > 0 {
+				m.LastCommit = flip(m.LastCommit, r.Intn(1<<16))
+			}
+		}))
+	}
+	var pc cmtproto.Commit
+	var bm cmtapi.BlockMeta
+	_ = cbor.Unmarshal(tp.block.Meta, &bm)
+	if pc.Unmarshal(bm.LastCommit) == nil && len(pc.Signatures) > 0 {
+		n := len(pc.Signatures)
+		blk("lastcommit-sig-bitflip", withCommit(tp.block, func(c *cmtproto.Commit) {
+			j := r.Intn(n)
+			for c.Signatures[j].Signature == nil {
+				j = (j + 1) % n
+			}
+			c.Signatures[j].Signature = flip(c.Signatures[j].Signature, r.Intn(512))
+		}))
+		blk("lastcommit-sig-timestamp+1ns", withCommit(tp.block, func(c *cmtproto.Commit) {
+			j := r.Intn(n)
+			c.Signatures[j].Timestamp = c.Signatures[j].Timestamp.Add(1)
+		}))
+		blk("lastcommit-sig-address-bitflip", withCommit(tp.block, func(c *cmtproto.Commit) {
+			j := r.Intn(n)
+			for c.Signatures[j].ValidatorAddress == nil {
+				j = (j + 1) % n
+			}
+			c.Signatures[j].ValidatorAddress = flip(c.Signatures[j].ValidatorAddress, r.Intn(160))
+		}))
+		blk("lastcommit-sig-dropped", withCommit(tp.block, func(c *cmtproto.Commit) { c.Signatures = c.Signatures[:n-1] }))
+		blk("lastcommit-sig-duplicated", withCommit(tp.block, func(c *cmtproto.Commit) { c.Signatures = append(c.Signatures, c.Signatures[0]) }))
+		blk("lastcommit-sig-absent-added", withCommit(tp.block, func(c *cmtproto.Commit) {
+			abs := cmttypes.NewCommitSigAbsent()
+			c.Signatures = append(c.Signatures, *abs.ToProto())
+		}))
+		if n >= 2 {
+			blk("lastcommit-sigs-swapped", withCommit(tp.block, func(c *cmtproto.Commit) { c.Signatures[0], c.Signatures[n-1] = c.Signatures[n-1], c.Signatures[0] }))
+		}
+		blk("lastcommit-height+1", withCommit(tp.block, func(c *cmtproto.Commit) { c.Height++ }))
+		blk("lastcommit-round+1", withCommit(tp.block, func(c *cmtproto.Commit) { c.Round++ }))
+		blk("lastcommit-blockid-bitflip", withCommit(tp.block, func(c *cmtproto.Commit) { c.BlockID.Hash = flip(c.BlockID.Hash, r.Intn(256)) }))
+		blk("lastcommit-unknown-proto-field", withMeta(tp.block, func(m *cmtapi.BlockMeta) { m.LastCommit = append(m.LastCommit, 0x78, 0x01) }))
+	}
+
+	// --- transactions ---
+	ht := &BCase{Kind: "txs", Alter: "genuine", Header: tp.header, Txs: tp.txs}
+	txs := func(label string, l [][]byte) {
+		cs = append(cs, BCase{Kind: "txs", Alter: label, Header: tp.header, Txs: l, Honest: ht})
+	}
+	cp := func() [][]byte {
+		l := make([][]byte, len(tp.txs))
+		for i := range l {
+			l[i] = append([]byte{}, tp.txs[i]...)
+		}
+		return l
+	}
+	txs("genuine", tp.txs)
+	cs = append(cs, BCase{Kind: "txs", Alter: "light-block-of-next-height", Header: tp.nextHeader, Txs: tp.txs, Honest: ht})
+	idxs := []int{0, len(tp.txs) - 1, r.Intn(len(tp.txs)), r.Intn(len(tp.txs))}
+	for _, j := range idxs {
+		l := cp()
+		l[j] = flip(l[j], r.Intn(4096))
+		txs("tx-bitflip", l)
+		l = cp()
+		l[j] = append(l[j], 0)
+		txs("tx-extended", l)
+		l = cp()
+		txs("tx-dropped", append(l[:j], l[j+1:]...))
+		l = cp()
+		txs("tx-duplicated", append(l[:j+1], l[j:]...))
+		l = cp()
+		h := newRec().H(l[j])
+		l[j] = h
+		txs("tx-replaced-by-its-hash", l)
+	}
+	if len(tp.txs) >= 2 {
+		l := cp()
+		l[0], l[len(l)-1] = l[len(l)-1], l[0]
+		txs("txs-swapped", l)
+		l = cp()
+		txs("txs-merged", append([][]byte{append(l[0], l[1]...)}, l[2:]...))
+	}
+	txs("txs-empty", nil)
+	txs("tx-appended", append(cp(), r.Bytes(10)))
+
+	// --- transaction proofs through verifyTransactionProof ---
+	twp := stateless.VerifTransactionsWithProofs(tp.txs)
+	for k := 0; k < 3 && len(tp.sigTxs) == len(tp.txs); k++ {
+		j := r.Intn(len(tp.txs))
+		if k == 0 {
+			j = len(tp.txs) - 1
+		}
+		if !bytes.Equal(cbor.Marshal(tp.sigTxs[j]), tp.txs[j]) {
+			continue // not canonically encoded in the recorded sample
+		}
+		pr := func(label string, proof []byte, tx *transaction.SignedTransaction, header []byte) {
+			cs = append(cs, BCase{Kind: "txproof", Alter: label, Header: header, Proof: proof, Tx: tx, Honest: ht})
+		}
+		pr("genuine", twp.Proofs[j], tp.sigTxs[j], tp.header)
+		pr("light-block-of-next-height", twp.Proofs[j], tp.sigTxs[j], tp.nextHeader)
+		pr("proof-bitflip", flip(twp.Proofs[j], r.Intn(1<<14)), tp.sigTxs[j], tp.header)
+		pr("proof-of-other-index", twp.Proofs[(j+1)%len(tp.txs)], tp.sigTxs[j], tp.header)
+		other := *tp.sigTxs[j]
+		other.Blob = flip(other.Blob, r.Intn(1<<12))
+		pr("tx-blob-bitflip", twp.Proofs[j], &other, tp.header)
+		other2 := *tp.sigTxs[j]
+		other2.Signature.Signature[r.Intn(64)] ^= 1
+		pr("tx-signature-bitflip", twp.Proofs[j], &other2, tp.header)
+		pr("proof-garbage", r.Bytes(1+r.Intn(30)), tp.sigTxs[j], tp.header)
+	}
+
+	// --- state root from the block metadata transaction ---
+	sr := func(label string, l [][]byte) {
+		cs = append(cs, BCase{Kind: "stateroot", Alter: label, Header: tp.header, Txs: l})
+	}
+	sr("genuine", tp.txs)
+	sr("txs-empty", nil)
+	sr("meta-tx-not-last", append(cp(), tp.txs[0]))
+	sr("last-tx-garbage", append(cp(), r.Bytes(12)))
+	{
+		last := tp.txs[len(tp.txs)-1]
+		var s transaction.SignedTransaction
+		if cbor.Unmarshal(last, &s) == nil {
+			s2 := s
+			s2.Blob = r.Bytes(9)
+			sr("last-tx-blob-garbage", append(cp(), cbor.Marshal(s2)))
+			var tx transaction.Transaction
+			if cbor.Unmarshal(s.Blob, &tx) == nil {
+				tx2 := tx
+				tx2.Method = "staking.Transfer"
+				s3 := s
+				s3.Blob = cbor.Marshal(tx2)
+				sr("last-tx-other-method", append(cp(), cbor.Marshal(s3)))
+				tx3 := tx
+				tx3.Body = cbor.Marshal("not a map")
+				s4 := s
+				s4.Blob = cbor.Marshal(tx3)
+				sr("last-tx-body-malformed", append(cp(), cbor.Marshal(s4)))
+				tx4 := tx
+				var other hash.Hash
+				copy(other[:], r.Bytes(32))
+				tx4.Body = cbor.Marshal(consensus.BlockMetadata{StateRoot: other, EventsRoot: r.Bytes(32)})
+				s5 := s
+				s5.Blob = cbor.Marshal(tx4)
+				sr("last-tx-unsigned-other-root", append(cp(), cbor.Marshal(s5)))
+			}
+		}
+	}
+
+	// --- results ---
+	if tp.results != nil {
+		hr := &BCase{Kind: "results", Alter: "genuine", Header: tp.header, Results: tp.results, ResultsHash: tp.resultsHash}
+		rs := func(label string, x *consensus.BlockResults, rh []byte, header []byte) {
+			cs = append(cs, BCase{Kind: "results", Alter: label, Header: header, Results: x, ResultsHash: rh, Honest: hr})
+		}
+		modr := func(label string, f func(m *cmtapi.BlockResultsMeta)) {
+			var m cmtapi.BlockResultsMeta
+			if err := cbor.Unmarshal(tp.results.Meta, &m); err != nil {
+				panic(err)
+			}
+			f(&m)
+			rs(label, &consensus.BlockResults{Height: tp.results.Height, Meta: cbor.Marshal(m)}, tp.resultsHash, tp.header)
+		}
+		rs("genuine", tp.results, tp.resultsHash, tp.header)
+		rs("light-block-of-next-height", tp.results, tp.resultsHash, tp.nextHeader)
+		rs("height+1", &consensus.BlockResults{Height: tp.results.Height + 1, Meta: tp.results.Meta}, tp.resultsHash, tp.header)
+		rs("height-1", &consensus.BlockResults{Height: tp.results.Height - 1, Meta: tp.results.Meta}, tp.resultsHash, tp.header)
+		rs("results-hash-of-this-header", tp.results, lightBlockOf(tp.header).LastResultsHash, tp.header)
+		rs("results-hash-nil", tp.results, nil, tp.header)
+		rs("meta-garbage", &consensus.BlockResults{Height: tp.results.Height, Meta: r.Bytes(1 + r.Intn(20))}, tp.resultsHash, tp.header)
+		for k := 0; k < 4; k++ {
+			rs("meta-random-bitflip", &consensus.BlockResults{Height: tp.results.Height, Meta: flip(tp.results.Meta, r.Intn(1<<16))}, tp.resultsHash, tp.header)
+		}
+		var m0 cmtapi.BlockResultsMeta
+		_ = cbor.Unmarshal(tp.results.Meta, &m0)
+		if n := len(m0.TxsResults); n > 0 {
+			pick := func(m *cmtapi.BlockResultsMeta) *abci.ResponseDeliverTx {
+				j := r.Intn(n)
+				c := *m.TxsResults[j]
+				m.TxsResults[j] = &c
+				return &c
+			}
+			modr("result-code+1", func(m *cmtapi.BlockResultsMeta) { pick(m).Code++ })
+			modr("result-code=0", func(m *cmtapi.BlockResultsMeta) { x := pick(m); x.Code = (x.Code + 2) % 3 })
+			modr("result-data-changed", func(m *cmtapi.BlockResultsMeta) { x := pick(m); x.Data = append(append([]byte{}, x.Data...), 7) })
+			modr("result-gaswanted+1", func(m *cmtapi.BlockResultsMeta) { pick(m).GasWanted++ })
+			modr("result-gasused+1", func(m *cmtapi.BlockResultsMeta) { pick(m).GasUsed++ })
+			modr("result-log-changed", func(m *cmtapi.BlockResultsMeta) { pick(m).Log += "!" })
+			modr("result-info-changed", func(m *cmtapi.BlockResultsMeta) { pick(m).Info += "!" })
+			modr("result-codespace-changed", func(m *cmtapi.BlockResultsMeta) { pick(m).Codespace += "x" })
+			modr("result-events-dropped", func(m *cmtapi.BlockResultsMeta) { pick(m).Events = nil })
+			modr("result-dropped", func(m *cmtapi.BlockResultsMeta) { m.TxsResults = m.TxsResults[:n-1] })
+			modr("result-duplicated", func(m *cmtapi.BlockResultsMeta) { m.TxsResults = append(m.TxsResults, m.TxsResults[0]) })
+			if n >= 2 {
+				modr("results-swapped", func(m *cmtapi.BlockResultsMeta) { m.TxsResults[0], m.TxsResults[n-1] = m.TxsResults[n-1], m.TxsResults[0] })
+			}
+			modr("results-emptied", func(m *cmtapi.BlockResultsMeta) { m.TxsResults = nil })
+		}
+		modr("begin-block-events-changed", func(m *cmtapi.BlockResultsMeta) { m.BeginBlockEvents = append(m.BeginBlockEvents, abci.Event{Type: "forged"}) })
+		modr("end-block-events-dropped", func(m *cmtapi.BlockResultsMeta) { m.EndBlockEvents = nil })
+	}
+
+	// --- next validators ---
+	if tp.validators != nil {
+		hv := &BCase{Kind: "validators", Alter: "genuine", Header: tp.header, Validators: tp.validators}
+		vs := func(label string, v *consensus.Validators, header []byte) {
+			cs = append(cs, BCase{Kind: "validators", Alter: label, Header: header, Validators: v, Honest: hv})
+		}
+		modv := func(label string, f func(p *cmtproto.ValidatorSet)) {
+			var p cmtproto.ValidatorSet
+			if err := p.Unmarshal(tp.validators.Meta); err != nil {
+				panic(err)
+			}
+			f(&p)
+			vs(label, &consensus.Validators{Height: tp.validators.Height, Meta: must(p.Marshal())}, tp.header)
+		}
+		vs("genuine", tp.validators, tp.header)
+		vs("light-block-of-next-height", tp.validators, tp.nextHeader)
+		vs("height+1", &consensus.Validators{Height: tp.validators.Height + 1, Meta: tp.validators.Meta}, tp.header)
+		vs("height-1", &consensus.Validators{Height: tp.validators.Height - 1, Meta: tp.validators.Meta}, tp.header)
+		vs("meta-garbage", &consensus.Validators{Height: tp.validators.Height, Meta: r.Bytes(1 + r.Intn(20))}, tp.header)
+		for k := 0; k < 4; k++ {
+			vs("meta-random-bitflip", &consensus.Validators{Height: tp.validators.Height, Meta: flip(tp.validators.Meta, r.Intn(1<<16))}, tp.header)
+		}
+		var p0 cmtproto.ValidatorSet
+		_ = p0.Unmarshal(tp.validators.Meta)
+		n := len(p0.Validators)
+		modv("validator-power+1", func(p *cmtproto.ValidatorSet) { v := *p.Validators[r.Intn(n)]; v.VotingPower++; p.Validators[0] = &v })
+		modv("validator-dropped", func(p *cmtproto.ValidatorSet) { p.Validators = p.Validators[:n-1] })
+		modv("validator-duplicated", func(p *cmtproto.ValidatorSet) { p.Validators = append(p.Validators, p.Validators[0]) })
+		modv("validator-added", func(p *cmtproto.ValidatorSet) {
+			nv := must(cmttypes.NewValidator(cmted.GenPrivKeyFromSecret(r.Bytes(8)).PubKey(), 5).ToProto())
+			p.Validators = append(p.Validators, nv)
+		})
+		modv("validator-key-replaced", func(p *cmtproto.ValidatorSet) {
+			j := r.Intn(n)
+			nv := must(cmttypes.NewValidator(cmted.GenPrivKeyFromSecret(r.Bytes(8)).PubKey(), p.Validators[j].VotingPower).ToProto())
+			p.Validators[j] = nv
+		})
+		modv("validator-address-bitflip", func(p *cmtproto.ValidatorSet) {
+			j := r.Intn(n)
+			v := *p.Validators[j]
+			v.Address = flip(v.Address, r.Intn(160))
+			p.Validators[j] = &v
+		})
+		if n >= 2 {
+			modv("validators-swapped", func(p *cmtproto.ValidatorSet) { p.Validators[0], p.Validators[n-1] = p.Validators[n-1], p.Validators[0] })
+		}
+		modv("validator-priority+1", func(p *cmtproto.ValidatorSet) { j := r.Intn(n); v := *p.Validators[j]; v.ProposerPriority++; p.Validators[j] = &v })
+		modv("proposer-changed", func(p *cmtproto.ValidatorSet) { p.Proposer = p.Validators[n-1] })
+	}
+
+	// --- parameters ---
+	if tp.params != nil {
+		hp := &BCase{Kind: "params", Alter: "genuine", Header: tp.header, Params: tp.params, StateParams: tp.stateParams}
+		ps := func(label string, p *consensus.Parameters, sp *genesis.Parameters, header []byte) {
+			cs = append(cs, BCase{Kind: "params", Alter: label, Header: header, Params: p, StateParams: sp, Honest: hp})
+		}
+		modp := func(label string, f func(p *cmtproto.ConsensusParams)) {
+			var p cmtproto.ConsensusParams
+			if err := p.Unmarshal(tp.params.Meta); err != nil {
+				panic(err)
+			}
+			f(&p)
+			ps(label, &consensus.Parameters{Height: tp.params.Height, Parameters: tp.params.Parameters, Meta: must(p.Marshal())}, tp.stateParams, tp.header)
+		}
+		ps("genuine", tp.params, tp.stateParams, tp.header)
+		ps("light-block-of-next-height", tp.params, tp.stateParams, tp.nextHeader)
+		ps("height+1", &consensus.Parameters{Height: tp.params.Height + 1, Parameters: tp.params.Parameters, Meta: tp.params.Meta}, tp.stateParams, tp.header)
+		ps("height-1", &consensus.Parameters{Height: tp.params.Height - 1, Parameters: tp.params.Parameters, Meta: tp.params.Meta}, tp.stateParams, tp.header)
+		ps("meta-garbage", &consensus.Parameters{Height: tp.params.Height, Parameters: tp.params.Parameters, Meta: []byte{0xff, 0xff, 0x01}}, tp.stateParams, tp.header)
+		for k := 0; k < 4; k++ {
+			ps("meta-random-bitflip", &consensus.Parameters{Height: tp.params.Height, Parameters: tp.params.Parameters, Meta: flip(tp.params.Meta, r.Intn(1<<16))}, tp.stateParams, tp.header)
+		}
+		ps("state-query-fails", tp.params, nil, tp.header)
+		op := tp.params.Parameters
+		op.MinGasPrice++
+		ps("oasis-parameters-changed", &consensus.Parameters{Height: tp.params.Height, Parameters: op, Meta: tp.params.Meta}, tp.stateParams, tp.header)
+		op2 := tp.params.Parameters
+		op2.MaxTxSize--
+		ps("oasis-max-tx-size-changed", &consensus.Parameters{Height: tp.params.Height, Parameters: op2, Meta: tp.params.Meta}, tp.stateParams, tp.header)
+		modp("block-max-bytes+1", func(p *cmtproto.ConsensusParams) { p.Block.MaxBytes++ })
+		modp("block-max-gas+1", func(p *cmtproto.ConsensusParams) { p.Block.MaxGas++ })
+		modp("block-max-bytes=0-invalid", func(p *cmtproto.ConsensusParams) { p.Block.MaxBytes = 0 })
+		modp("evidence-max-age+1", func(p *cmtproto.ConsensusParams) { p.Evidence.MaxAgeNumBlocks++ })
+		modp("evidence-max-bytes+1", func(p *cmtproto.ConsensusParams) { p.Evidence.MaxBytes++ })
+		modp("validator-key-types-changed", func(p *cmtproto.ConsensusParams) { p.Validator.PubKeyTypes = []string{"secp256k1"} })
+		modp("version-app+1", func(p *cmtproto.ConsensusParams) { p.Version.App++ })
+	}
+	return cs
+}
+
+// ackFree lists the unbound fields the code itself documents as unverifiable
+// (core.go:569 "Block size cannot be verified"; core.go:638 TODO events, #6210).
+var ackFree = map[string]bool{
+	"Block.Size": true, "TxsResults.{Log,Info,Events,Codespace}": true, "Begin/EndBlockEvents": true,
+}
+
+func mainBind(seed uint64, rounds int, out, replay string) {
+	signature.SetChainContext("verif stateless harness")
+	w := newCaseWriter(out, coqHeader, "run_bcase", "sr_result_eqb", 40)
+	sum := coqout.NewSummary("consistent (block, light block, transactions, results, next validators, parameters) tuples: the mainnet sample of the package's testdata plus -rounds constructed ones (heights 1, 2, 7, 25300000, 2^31+5, 2^63-2; 1-8 transactions, 1-5 commit signatures, 1-5 validators) and every field-level alteration listed in the histogram, through verifyBlock / verifyBlockResults / verifyTransactions / verifyTransactionProof / verifyNextValidators / verifyParameters / stateRootFromBlockTxs; non-trivial = altered response; distinct = distinct case descriptions")
+	var cases []BCase
+	if replay != "" {
+		cases = []BCase{loadCase[BCase](replay)}
+	} else {
+		r := prng.New(seed)
+		if tp := recordedTuple(); tp != nil {
+			cases = append(cases, genBCases(r.Fork(), tp)...)
+			sum.Count("tuples", "recorded")
+		}
+		for i := 0; i < rounds; i++ {
+			cases = append(cases, genBCases(r.Fork(), mkTuple(r.Fork(), i))...)
+			sum.Count("tuples", "constructed")
+		}
+	}
+	seen := map[string]bool{}
+	freeSeen := map[string]bool{}
+	for _, c := range cases {
+		res := runB(c)
+		key, _ := json.Marshal(c)
+		if c.Alter != "genuine" && !seen[string(key)] {
+			sum.DistinctNontrivial++
+		}
+		seen[string(key)] = true
+		sum.Evaluations++
+		sum.Count("alteration", c.Kind+"/"+c.Alter)
+		sum.Count("verdict", c.Kind+"/"+res.verdict)
+		if c.Kind == "block" && c.Alter == "height+1" {
+			sum.Sample(map[string]any{"kind": c.Kind, "alter": c.Alter, "verdict": res.verdict}, 2)
+		}
+		if res.panicked != "" {
+			sum.Violations = append(sum.Violations, map[string]any{"what": "implementation panicked: " + res.panicked, "case": c})
+			continue
+		}
+		w.Add(res.t, res.coq, map[string]any{"case": c})
+		if res.violation != "" {
+			sum.Violations = append(sum.Violations, map[string]any{"what": res.violation, "case": c})
+		}
+		for _, f := range res.free {
+			sum.Count("accepted_with_unbound_field_altered", f)
+			if !ackFree[f] && !freeSeen[f] {
+				freeSeen[f] = true
+			}
+		}
+	}
+	var fl []string
+	for _, k := range coqout.SortedKeys(freeSeen) {
+		fl = append(fl, k)
+	}
+	sum.Extra["unbound_fields_not_documented_in_code"] = fl
+	w.Close()
+	sum.Write(out)
+}
